@@ -100,6 +100,7 @@ var glSpecs = []glSpec{
 	{"blocktimeindex", "Index", "marshalBinary", "btMarshal"},
 	{"blocktimeindex", "Index", "unmarshalBinary", "btUnmarshal"},
 	{"compactindexsized", "Header", "Load", "ciHeaderLoad"},
+	{"compactindexsized", "", "Open", "ciOpen"},
 	{"compactindexsized", "BucketHeader", "Hash", "ciEntryHash"},
 	{"compactindexsized", "DB", "GetValueSize", "ciGetValueSize"},
 	{"compactindexsized", "DB", "entryStride", "ciEntryStride"},
@@ -129,7 +130,7 @@ var glExterns = map[string]glExtern{
 }
 
 // functions whose Go errors are data (they inspect, compare and return error VALUES such as io.EOF)
-var glErrData = map[string]bool{"scfMultiReadAt": true, "uvrReadUvarint": true, "uvrReadByte": true, "oassFromReader": true, "oassSliceFromBytes": true, "bkReadUint64Le": true, "bkReaderHas": true, "ciReadFrom": true, "ciGetBucket": true, "ciLoadEntry": true, "ciBucketLookup": true, "ciLookupBucket": true, "ciDBLookup": true}
+var glErrData = map[string]bool{"scfMultiReadAt": true, "uvrReadUvarint": true, "uvrReadByte": true, "oassFromReader": true, "oassSliceFromBytes": true, "bkReadUint64Le": true, "bkReaderHas": true, "ciOpen": true, "ciReadFrom": true, "ciGetBucket": true, "ciLoadEntry": true, "ciBucketLookup": true, "ciLookupBucket": true, "ciDBLookup": true}
 
 var leanKeywords = map[string]bool{}
 
